@@ -8,7 +8,7 @@ from vf.spec import AnyT, Ann, Coll, Ctx, F, Lit, MapT, ObjectT, Prim, Program, 
 PROP = "C13"
 SHARDS = {"quick": 8, "thorough": 16}
 TIME_CAP = {"quick": 70, "thorough": 900}
-REQUIRED = ["union_serialization_history_checks", "union_accept", "union_reject", "programs", "coerced_cases", "discriminated_accept", "discriminated_reject_tag", "discriminated_serialize", "tagged_union_cases", "same_json_type_pairs", "unsupported_member_unions", "discriminated_families", "discriminated_dispatch_checks_coerce", "discriminated_dispatch_checks_strict", "discriminated_untagged_checks"]
+REQUIRED = ["tagged_union_option_cases", "union_serialization_history_checks", "union_accept", "union_reject", "programs", "coerced_cases", "discriminated_accept", "discriminated_reject_tag", "discriminated_serialize", "tagged_union_cases", "same_json_type_pairs", "unsupported_member_unions", "discriminated_families", "discriminated_dispatch_checks_coerce", "discriminated_dispatch_checks_strict", "discriminated_untagged_checks"]
 # compiled-tree node classes this workload is expected to reach: reported as coverage gaps when missing, never a verdict
 # (a renamed internal class must not turn into an alarm)
 EXPECTED_NODES = ["node:UnionByTypeMethod", "node:UnionMethod", "node:OptionalMethod"]
@@ -395,15 +395,27 @@ def check_tagged(env, n):
         names = list(tags)
         cases = [{}] + [{t: tags[t][0]} for t in names] + [{t: rng.choice(tags[t][1])} for t in names]
         cases += [{a: tags[a][0], b: tags[b][0]} for a, b in itertools.combinations(names, 2)] + [{"unknown": 1}, {"i": 3}, {"bar": {"f": "a"}, "unknown": 1}]
+        opts = rng.choice([{}, {}, {"fall_back_on_default": True}, {"additional_properties": True}, {"coerce": True}])
         for d in cases:
-            r = harness.call(deserialize, T, d)
+            r = harness.call(deserialize, T, d, **opts)
             env.count("tagged_union_cases")
-            env.case("tagged", repr(d))
+            if opts:
+                env.count("tagged_union_option_cases")
+            env.case("tagged", repr(d), repr(opts))
+            if opts.get("additional_properties") and "unknown" in d:
+                continue  # an unknown key counts for min/max properties when additional properties are allowed: unspecified
+            if opts.get("coerce"):
+                # values may be coerced into the tag's type: only "never an exception" and "exactly one known tag" are decided here
+                if r.kind == "exc":
+                    env.violation({"kind": "exception", "exc": r.exc, "site": r.site, "family": "tagged", "option": next(iter(opts), None)}, {"program": TAGGED_SRC.format(n=n), "datum": d, "options": opts, "observed": r.brief()})
+                elif r.kind == "ok" and not (len(d) == 1 and all(t in tags for t in d)):
+                    env.violation({"kind": "tagged-union-accepts", "ntags": len(d)}, {"program": TAGGED_SRC.format(n=n), "datum": d, "options": opts, "observed": r.brief()})
+                continue
             valid_tags = [t for t in d if t in tags]
             one_valid = len(d) == 1 and len(valid_tags) == 1 and d[valid_tags[0]] == tags[valid_tags[0]][0]
-            wit = {"program": TAGGED_SRC.format(n=n), "datum": d, "observed": r.brief()}
+            wit = {"program": TAGGED_SRC.format(n=n), "datum": d, "options": opts, "observed": r.brief()}
             if r.kind == "exc":
-                env.violation({"kind": "exception", "exc": r.exc, "site": r.site, "family": "tagged"}, wit)
+                env.violation({"kind": "exception", "exc": r.exc, "site": r.site, "family": "tagged", "option": next(iter(opts), None)}, wit)
             elif one_valid and r.kind != "ok":
                 env.violation({"kind": "tagged-union-rejects-single-valid-tag"}, wit)
             elif not one_valid and r.kind == "ok":
@@ -411,7 +423,7 @@ def check_tagged(env, n):
             elif r.kind == "ok":
                 tag, val = get_tagged(r.value)
                 pyname = {"baz": "i"}.get(valid_tags[0], valid_tags[0])
-                inner = harness.call(deserialize, {"bar": getattr(mod, f"Bar{n}"), "i": int, "s": __import__("typing").List[str]}[pyname], d[valid_tags[0]])
+                inner = harness.call(deserialize, {"bar": getattr(mod, f"Bar{n}"), "i": int, "s": __import__("typing").List[str]}[pyname], d[valid_tags[0]], **opts)
                 if tag != pyname or inner.kind != "ok" or canon(val) != canon(inner.value):
                     env.violation({"kind": "tagged-union-value"}, {**wit, "tag": tag})
                 s = harness.call(serialize, T, r.value)
